@@ -37,7 +37,7 @@ RULE = ("cases: per Faker locale (quick: en_US, default, ja_JP, ko_KR + 10 sampl
         "query spelling (exact, case flips, all underscores removed, underscores moved, unknown, non-ASCII) is resolved "
         "by FakerTemplateLibrary with stubbed providers and compared with the model; the provider's safe_domain_names; "
         "rows = recipes run by snowfakery.data_generator.generate with fields `fake: <first/last name spelling>`, "
-        "`fake: email`, `fake: username` in varying order/form, names genuine or injected (ASCII, punctuation, "
+        "`fake: email`, `fake: username` in varying order/form — also with nested objects (one and two levels), friends and count loops that fake names of their own between a row's names and its e-mail/username — names genuine or injected (ASCII, punctuation, "
         "1 char, empty, non-ASCII, digits, '@', 100 chars), all Faker return values recorded and replayed in the model, "
         "template/year draws injected; direct calls of FakeNames.user_name/email with stub Faker at the truncation "
         "boundaries; replace_unicode_strings_with_None on boundary code points.  non-trivial: a locale case in which "
@@ -230,21 +230,76 @@ def _table_part(case):
     return out
 
 
+NESTED = "<nested>"
+
+
+def template_ops(t):
+    """evaluation order of one template instantiation: ("push",) fields/nested/friends ... ("pop",).
+    All rows of a `count:` loop share the template's context."""
+    ops = [("push",)]
+    for _ in range(t.get("count", 1)):
+        for f in t["fields"]:
+            if f[0] == NESTED:
+                ops.extend(template_ops(f[1]))
+            else:
+                ops.append(("fake", f[0], f[1]))
+        for fr in t.get("friends", []):
+            ops.extend(template_ops(fr))
+    ops.append(("pop",))
+    return ops
+
+
+def row_queries(row):
+    return [(o[1], o[2]) for o in template_ops(row) if o[0] == "fake"]
+
+
+def _n_written(t):
+    inner = sum(_n_written(f[1]) for f in t["fields"] if f[0] == NESTED)
+    inner += sum(_n_written(fr) for fr in t.get("friends", []))
+    return t.get("count", 1) * (1 + inner)
+
+
+def _template_stmt(name, t):
+    fields = {}
+    for j, f in enumerate(t["fields"]):
+        if f[0] == NESTED:
+            fields[f"f{j}"] = [_template_stmt(f"{name}_{j}", f[1])]
+        elif f[1] == "block":
+            fields[f"f{j}"] = {"fake": f[0]}
+        elif f[1] == "jinja":
+            fields[f"f{j}"] = "${{fake.%s}}" % f[0]
+        else:
+            fields[f"f{j}"] = "${{fake.%s(matching=False)}}" % f[0]
+    d = {"object": name}
+    if t.get("count", 1) != 1:
+        d["count"] = t["count"]
+    d["fields"] = fields
+    if t.get("friends"):
+        d["friends"] = [_template_stmt(f"{name}_f{k}", fr) for k, fr in enumerate(t["friends"])]
+    return d
+
+
+def _collect(name, t, queues, out):
+    """values of the fake fields in evaluation order, from the captured rows (per-table FIFO)"""
+    for _ in range(t.get("count", 1)):
+        row = queues[name].pop(0)
+        for j, f in enumerate(t["fields"]):
+            if f[0] == NESTED:
+                _collect(f"{name}_{j}", f[1], queues, out)
+            else:
+                v = row[f"f{j}"]
+                out.append(v if isinstance(v, str) else ["other", type(v).__name__, repr(v)[:60]])
+        for k, fr in enumerate(t.get("friends", [])):
+            _collect(f"{name}_f{k}", fr, queues, out)
+
+
 def _recipe_text(locale, rows, offset):
     import yaml
     stmts = []
     if locale is not None:
         stmts.append({"var": "snowfakery_locale", "value": locale})
     for i, r in enumerate(rows):
-        fields = {}
-        for j, (q, form) in enumerate(r["fields"]):
-            if form == "block":
-                fields[f"f{j}"] = {"fake": q}
-            elif form == "jinja":
-                fields[f"f{j}"] = "${{fake.%s}}" % q
-            else:
-                fields[f"f{j}"] = "${{fake.%s(matching=False)}}" % q
-        stmts.append({"object": f"R{offset + i}", "fields": fields})
+        stmts.append(_template_stmt(f"R{offset + i}", r))
     return yaml.safe_dump(stmts, allow_unicode=True, sort_keys=False)
 
 
@@ -253,17 +308,21 @@ def _rows_part(case):
     from snowfakery.output_streams import OutputStream
     rows = case.get("rows", [])
     st = _State("record")
+    expected = [_n_written(r) for r in rows]
     for i, r in enumerate(rows):
         st.inject[i] = {k: list(v) for k, v in (r.get("inject") or {}).items()}
         st.raw[i] = list(r.get("draws") or [])
+    got = {}
 
     class Cap(OutputStream):
         def __init__(self):
-            self.got = []
+            pass
 
         def write_row(self, tablename, row):
-            self.got.append(dict(row))
-            st.row += 1
+            i = st.row
+            got.setdefault(i, []).append((tablename, dict(row)))
+            if i < len(expected) and len(got[i]) >= expected[i]:
+                st.row += 1             # the top-level template and everything below it is finished
 
         def write_single_row(self, *a):
             pass
@@ -276,31 +335,36 @@ def _rows_part(case):
     with _patched(st):
         while start < len(rows):
             st.row = start
-            cap = Cap()
             err = None
             try:
-                generate(io.StringIO(_recipe_text(case["locale"], rows[start:], start)), {}, cap)
+                generate(io.StringIO(_recipe_text(case["locale"], rows[start:], start)), {}, Cap())
             except BaseException as e:
                 if type(e).__name__ == "_CaseTimeout":
                     raise
                 err = C.canon_exc(e)
-            for i, row in enumerate(cap.got):
-                vals = [v if isinstance(v, str) else ["other", type(v).__name__, repr(v)[:60]]
-                        for k, v in row.items() if k != "id"]
-                results[start + i] = {"vals": vals}
-            done = start + len(cap.got)
+            done = st.row
             if err is None or done >= len(rows):
-                if err is not None and done >= len(rows):
-                    results.append({"err_after_all_rows": err})
                 break
             results[done] = {"err": err}
             start = done + 1
     for i in range(len(rows)):
         if results[i] is None:
-            results[i] = {"err": "not-run"}
+            written = got.get(i, [])
+            if len(written) == expected[i]:
+                queues = {}
+                for name, row in written:
+                    queues.setdefault(name, []).append(row)
+                vals = []
+                try:
+                    _collect(f"R{i}", rows[i], queues, vals)
+                    results[i] = {"vals": vals}
+                except (KeyError, IndexError):
+                    results[i] = {"err": "rows-not-as-expected"}
+            else:
+                results[i] = {"err": "not-run"}
         results[i]["flog"] = st.flog.get(i, [])
         results[i]["draws"] = st.draws.get(i, [])
-    return results[:len(rows)]
+    return results
 
 
 class _StubF:
@@ -477,6 +541,46 @@ def _gen_row(rng, genuine=False):
     return {"fields": fields, "inject": inject, "draws": [tpl, yoff, rng.randrange(60), rng.randrange(71)]}
 
 
+def _gen_nested_row(rng, genuine=None):
+    """parent names, then a nested object / friend that fakes names (and contact data) of its own,
+    then the parent's e-mail / username: they must be built from the parent's names"""
+    F = lambda: [rng.choice(FIRST_SPELL), "block"]
+    L = lambda: [rng.choice(LAST_SPELL), "block"]
+    E = lambda: [rng.choice(EMAIL_SPELL[:4]), rng.choice(["block", "block", "jinja"])]
+    U = lambda: [rng.choice(USER_SPELL[:7]), rng.choice(["block", "block", "jinja"])]
+    inner = lambda: {"fields": rng.choice([[F(), L()], [F(), L(), E()], [L(), F(), U(), E()], [F()], [E()]])}
+    shape = rng.choice(["nested", "nested", "nested", "two-level", "friend", "friend-count", "nested-first",
+                        "nested-count", "two-nested"])
+    row = {"fields": [F(), L(), [NESTED, inner()], E(), U()]}
+    if shape == "two-level":
+        mid = {"fields": [F(), L(), [NESTED, inner()], E()]}
+        row = {"fields": [F(), L(), [NESTED, mid], rng.choice([E(), U()]), E()]}
+    elif shape == "friend":
+        row = {"fields": [F(), L(), E()], "friends": [inner()]}
+    elif shape == "friend-count":
+        row = {"fields": [F(), L(), E(), U()], "friends": [{"fields": [F(), L(), E()]}], "count": 2}
+    elif shape == "nested-first":
+        row = {"fields": [[NESTED, inner()], F(), L(), E()]}
+    elif shape == "nested-count":
+        row = {"fields": [F(), L(), [NESTED, dict(inner(), count=2)], E()], "count": 2}
+    elif shape == "two-nested":
+        row = {"fields": [F(), [NESTED, inner()], L(), [NESTED, inner()], U(), E()]}
+    nfake = len([1 for q, _ in row_queries(row)])
+    plain = NAME_POOL[:9] + ["Xy", "McDonald", "van der Berg", "D'Angelo", "Jose", "Q_R", "Jackson", "Miles",
+                             "Bernard", "Norton"]
+    inject = {}
+    if genuine is None:
+        genuine = rng.random() < .4
+    if not genuine:
+        pool = plain if rng.random() < .7 else NAME_POOL
+        inject = {"first_name": [rng.choice(pool) for _ in range(nfake + 4)],
+                  "last_name": [rng.choice(pool) for _ in range(nfake + 4)]}
+    row["inject"] = inject
+    row["draws"] = [rng.choice([0, 59, rng.randrange(60)]) if k % 2 == 0 else rng.choice([0, 70, rng.randrange(71)])
+                    for k in range(2 * nfake)]
+    return row
+
+
 def _probe_rows(rng):
     """two rows that differ only in the uuid4 Faker draws: the usernames must differ"""
     first, last = rng.choice([("Ann", "Lee"), ("Zoë", "Müller"), ("O'Neil", "de la Cruz"), ("A", "B"),
@@ -572,7 +676,8 @@ def generate(rng, tier):
                       "rows": [_gen_bulk_row(rng, i) for i in range(n_bulk)]})
         for _ in range(n_mixed):
             cases.append({"kind": "locale", "locale": loc, "part": "mixed", "queries": [],
-                          "rows": [_gen_row(rng, genuine=rng.random() < .25) for _ in range(10)] + _probe_rows(rng)})
+                          "rows": [_gen_row(rng, genuine=rng.random() < .25) for _ in range(8)]
+                                  + [_gen_nested_row(rng) for _ in range(4)] + _probe_rows(rng)})
     for _ in range(250 if tier == "quick" else 2500):
         cases.append(_gen_user(rng))
     for _ in range(200 if tier == "quick" else 2000):
@@ -637,7 +742,8 @@ def _row_term(row, ob):
         exp = '(Err (DGE ""))'
     else:
         return None
-    fields = C.clist(C.cpair(cname(q), C.cbool(form != "nomatch")) for q, form in row["fields"])
+    fields = C.clist("OPush" if o[0] == "push" else "OPop" if o[0] == "pop" else
+                     f"(OFake {cname(o[1])} {C.cbool(o[2] != 'nomatch')})" for o in template_ops(row))
     flog = C.clist(C.cpair(cname(m), clit(v)) for m, v, _ in ob.get("flog", []))
     draws = C.clist(C.cpair(C.cz(n), C.cz(v)) for n, v in ob.get("draws", []))
     return f"(Row {fields} {flog} {draws} {exp})"
@@ -702,7 +808,7 @@ def coq_case(case, obs):
             # rows only: a lookup of q can only hit keys made from names n with canon(n) = canon(q)
             # (keys are lower(n) or canon(n), the probe is lower(q)), so the other names are left out
             # of the term; order is preserved.  The table cases carry the complete lists.
-            want = {canon(q) for row in case.get("rows", []) for q, _ in row["fields"]}
+            want = {canon(q) for row in case.get("rows", []) for q, _ in row_queries(row)}
             fk_dir = [n for n in fk_dir if canon(n) in want]
             sf_dir = [n for n in sf_dir if canon(n) in want]
             ignore = [n for n in ignore if n in set(fk_dir)]
@@ -751,18 +857,30 @@ def _email_from_names(first, last, v):
 
 
 def row_walk(row, ob):
-    """Replay a row from the recorded Faker values: yields (field index, kind, value, context)."""
+    """Replay a row from its values in evaluation order: yields (value index, kind, value, the local
+    variables of the context the call ran in, form).  Every template instantiation has local variables
+    of its own (the property's "names generated earlier in the row")."""
     vals = ob.get("vals")
     if vals is None:
         return
-    lv = {}
-    for j, ((q, form), v) in enumerate(zip(row["fields"], vals)):
-        cq = canon(q)
-        if cq == EMAIL_CANON:
-            yield j, "email", v, dict(lv), form
-        elif cq == USER_CANON:
-            yield j, "user", v, dict(lv), form
-        lv[cq] = v
+    stack, lv, j = [], {}, 0
+    for o in template_ops(row):
+        if o[0] == "push":
+            stack.append(lv)
+            lv = {}
+        elif o[0] == "pop":
+            lv = stack.pop()
+        else:
+            if j >= len(vals):
+                return
+            q, form, v = o[1], o[2], vals[j]
+            cq = canon(q)
+            if cq == EMAIL_CANON:
+                yield j, "email", v, dict(lv), form
+            elif cq == USER_CANON:
+                yield j, "user", v, dict(lv), form
+            lv[cq] = v
+            j += 1
 
 
 def surviving_uuid_chars(username, uuid):
@@ -821,9 +939,11 @@ def oracle(case, obs):
         sigs[qd["q"]] = sig
     for qd, sig in zip(case.get("queries", []), obs.get("queries", [])):
         base = qd["base"]
-        if base is None or base not in sigs or sigs[base] == "!AttributeError":
+        if base is None or base not in sigs:
             continue
         want = sigs[base]
+        if want == "!AttributeError" and qd["cls"] == "partial":
+            continue
         if qd["cls"] == "valid" and sig != want:
             return (f"lookup: locale {case['locale']}: spelling {qd['q']!r} of {base!r} gives {sig!r}, "
                     f"the exact name gives {want!r}")
@@ -847,11 +967,11 @@ def oracle(case, obs):
         if any(note and note.startswith("raised:") for _, _, note in ob.get("flog", [])):
             continue                      # Faker itself failed; no value was produced
         if "err" in ob:
-            bad = [q for q, _ in row["fields"] if canon(q) not in
+            bad = [q for q, _ in row_queries(row) if canon(q) not in
                    ("firstname", "lastname", "email", "username", "firstnamefemale", "lastnamemale", "name", "prefix",
                     "firstnamemale")]
             if not bad:
-                return f"rows: row {i} of locale {case['locale']} failed with {ob['err']}: {row['fields']}"
+                return f"rows: row {i} of locale {case['locale']} failed with {ob['err']}: {row_queries(row)}"
             continue
         for m, v, note in ob.get("flog", []):
             if v is None:
@@ -862,22 +982,23 @@ def oracle(case, obs):
             if what == "email":
                 m = _check_email(v)
                 if m:
-                    return f"rows: row {i} field {j} (fake: {row['fields'][j][0]}): e-mail {m}"
+                    return f"rows: row {i} value {j}: e-mail {m}"
                 f, l = lv.get("firstname"), lv.get("lastname")
                 if (form != "nomatch" and isinstance(f, str) and isinstance(l, str) and _clean(f) and _clean(l)
                         and not _email_from_names(f, l, v)):
-                    return f"rows: row {i}: e-mail {v!r} is not built from the ASCII names {f!r} / {l!r}"
+                    return (f"rows: row {i} value {j}: e-mail {v!r} is not built from the ASCII names {f!r} / {l!r} "
+                            f"generated earlier in its own row")
             else:
                 rec = {m_: x for m_, x, _ in ob.get("flog", []) if x is not None}
                 host = rec.get("hostname")
                 if isinstance(v, str) and len(v) > 80 and (host is None or len(host) <= 79):
-                    return f"rows: row {i} field {j} (fake: {row['fields'][j][0]}): username {v!r} has {len(v)} > 80 characters"
+                    return f"rows: row {i} field {j} : username {v!r} has {len(v)} > 80 characters"
                 inputs_ok = all("@" not in (x or "") for m_, x, _ in ob.get("flog", [])
                                 if m_ in ("first_name", "last_name", "hostname", "uuid4"))
                 if inputs_ok and (host is None or len(host) <= 79):
                     m = _check_user(v)
                     if m:
-                        return f"rows: row {i} field {j} (fake: {row['fields'][j][0]}): username {m}"
+                        return f"rows: row {i} field {j} : username {m}"
                 uu = [x for m_, x, _ in ob.get("flog", []) if m_ == "uuid4" and x]
                 if isinstance(v, str) and len(v) < 80 and uu and not any(u in v for u in uu):
                     return (f"rows: row {i} field {j}: username {v!r} was not truncated but contains none of the "
@@ -1045,7 +1166,7 @@ def shrink(case):
             yield dict(case, queries=qs[:h])
             yield dict(case, queries=qs[h:])
         for i, r in enumerate(rows[:3]):
-            if len(r["fields"]) > 1:
+            if len(r["fields"]) > 1 and not r.get("friends") and r.get("count", 1) == 1:
                 for j in range(len(r["fields"])):
                     r2 = dict(r, fields=r["fields"][:j] + r["fields"][j + 1:])
                     yield dict(case, rows=rows[:i] + [r2] + rows[i + 1:])
@@ -1063,7 +1184,8 @@ def directed_search(rng, disagreeing):
                     "rows": [_gen_bulk_row(rng, i) for i in range(120)]})
         for _ in range(6):
             out.append({"kind": "locale", "locale": loc, "part": "mixed", "queries": [],
-                        "rows": [_gen_row(rng) for _ in range(10)] + _probe_rows(rng)})
+                        "rows": [_gen_row(rng) for _ in range(8)] + [_gen_nested_row(rng) for _ in range(6)]
+                                + _probe_rows(rng)})
     out.extend(_gen_user(rng) for _ in range(1500))
     out.extend(_gen_email(rng) for _ in range(1500))
     out.extend(_clean_batches(rng, 20))
